@@ -86,6 +86,14 @@ func keyidDecodeRules(c *Ctx) ([]*ssa.Function, bool) {
 			}
 		}
 	}
+	// ... or the one function dispatching on the version
+	dispatcher, dispVers := (*ssa.Function)(nil), []int64(nil)
+	if len(checkers) == 0 {
+		if d, vers := w.keyidDispatcher(); d != nil {
+			dispatcher, dispVers = d, vers
+			checkers = append(checkers, d)
+		}
+	}
 	c.Floor("R2.truth", len(checkers), 1, "version checker functions registered in the package initialiser")
 	never := int64(1)
 	if pk := w.ByPath[RepoMod+"/"+keyidPkg]; pk != nil {
@@ -99,10 +107,21 @@ func keyidDecodeRules(c *Ctx) ([]*ssa.Function, bool) {
 		Domain: map[string][]absVal{"touch": {{K: avInt, I: 0}, {K: avInt, I: 1}, {K: avInt, I: 2}, {K: avInt, I: 3}, {K: avInt, I: 9}}},
 		FieldAtom: func(obj, field string) string {
 			if obj == "kid" {
+				if field == "Version" && dispatcher != nil {
+					return "ver"
+				}
 				return keyidAtoms[field]
 			}
 			return ""
 		},
+	}
+	supported := map[int64]bool{}
+	if dispatcher != nil {
+		for _, v := range dispVers {
+			supported[v] = true
+			spec.Domain["ver"] = append(spec.Domain["ver"], absVal{K: avInt, I: v})
+		}
+		spec.Domain["ver"] = append(spec.Domain["ver"], absVal{K: avInt, I: 65535}) // a version no test names
 	}
 	for _, ck := range checkers {
 		c.Saw(ck)
@@ -115,7 +134,7 @@ func keyidDecodeRules(c *Ctx) ([]*ssa.Function, bool) {
 			c.Und("R2.truth", shortFn(ck)+"|condition "+a, w.FnPos(ck), "the checker branches on something that is not one of the five consistency attributes: "+a)
 		}
 		for _, a := range named {
-			ok := false
+			ok := a == "ver" && dispatcher != nil
 			for _, n := range keyidAtoms {
 				if n == a {
 					ok = true
@@ -124,12 +143,19 @@ func keyidDecodeRules(c *Ctx) ([]*ssa.Function, bool) {
 			c.Check(ok, "R2.truth", shortFn(ck)+"|uses attribute "+a, w.FnPos(ck), "one of headless/hw/ff/nonce/touch", "unexpected attribute "+a)
 		}
 		rows := 0
-		for _, val := range dtValuations([]string{"headless", "hw", "ff", "nonce", "touch"}, spec.Domain) {
+		atoms := []string{"headless", "hw", "ff", "nonce", "touch"}
+		if ck == dispatcher {
+			atoms = append([]string{"ver"}, atoms...)
+		}
+		for _, val := range dtValuations(atoms, spec.Domain) {
 			rows++
 			ms := dtMatch(leaves, val)
 			h, hw, ff, nonce := val["headless"].B, val["hw"].B, val["ff"].B, val["nonce"].B
 			nv := val["touch"].I == never
 			want := (!h || (!hw && !ff && nv)) && (!nonce || (!ff && !h && nv))
+			if ck == dispatcher {
+				want = want && supported[val["ver"].I] // every other version is refused
+			}
 			key := shortFn(ck) + "|row " + valString(val)
 			if len(ms) == 0 {
 				c.Und("R2.truth", key, w.FnPos(ck), "no path of the checker covers this valuation")
@@ -269,6 +295,8 @@ func checkKeyidMarshal(c *Ctx, kid *types.Named) {
 			lk := lookupOn(l.V, keyidCheckerTable, w)
 			return lk != nil && l.Pol && w.Expr(lk.Index) == "p0.Version"
 		})
+		viaDispatcher := w.dispatcherPassed(fn, f, b, fn.Params[0])
+		okVer = okVer || viaDispatcher
 		c.Check(okVer, "R3.gate", "Marshal|version supported", w.Pos(r.Pos()), "must-fact: checker table has the receiver's version", "Marshal can succeed for a version that has no checker (unsupported version)")
 		okChk := false
 		if chk != nil && len(chk.Call.Args) == 1 && w.Expr(chk.Call.Args[0]) == "p0" {
@@ -278,6 +306,7 @@ func checkKeyidMarshal(c *Ctx, kid *types.Named) {
 				}
 			}
 		}
+		okChk = okChk || viaDispatcher
 		c.Check(okChk, "R3.gate", "Marshal|consistency check passed", w.Pos(r.Pos()), "must-fact: checker(receiver) == nil", "Marshal can succeed without the must-fact that the version's checker accepted the receiver")
 		okJ := false
 		if jm != nil && w.Expr(jm.Call.Args[0]) == "p0" {
@@ -435,6 +464,7 @@ func checkKeyidUnmarshal(c *Ctx, kid *types.Named) {
 				}
 			}
 		}
+		okChk = okChk || w.dispatcherPassed(fn, f, b, dec)
 		c.Check(okChk, "R3.gate", "Unmarshal|consistency check passed", w.Pos(r.Pos()), "must-fact: checker(decoded) == nil", "Unmarshal can succeed without the must-fact that the version's checker accepted the decoded KeyID")
 		c.Check(w.canon(fn, r.Results[0]) == ssa.Value(dec), "R3.gate", "Unmarshal|returns the decoded struct", w.Pos(r.Pos()), "the struct json decoded into", "Unmarshal returns something other than the struct it decoded and checked: "+w.Short(r.Results[0]))
 	}
